@@ -2,6 +2,7 @@ package engines
 
 import (
 	"crypto/sha256"
+	_ "embed"
 	"encoding/hex"
 	"encoding/json"
 	"errors"
@@ -117,8 +118,8 @@ func worldOf(files map[string]string, root string) (*oracle.World, error) {
 type optSet struct {
 	Name                                     string
 	Minimal, Expand, RemoveUnused, KeepNames bool
-	Verbose      bool // FlattenOpts.Verbose: the reporting pass at the end of Flatten runs (its output is discarded)
-	NoBase       bool // FlattenOpts.BasePath left empty (documented: relative references are then searched from the working directory)
+	Verbose                                  bool // FlattenOpts.Verbose: the reporting pass at the end of Flatten runs (its output is discarded)
+	NoBase                                   bool // FlattenOpts.BasePath left empty (documented: relative references are then searched from the working directory)
 }
 
 func baseOf(o optSet, root string) string {
@@ -359,8 +360,16 @@ func hasRefCycle(occs []refOcc) bool {
 	return false
 }
 
+// The witness of the known finding D20 (a generated bundle kept as found): it is part of the systematic corpus so that
+// the finding is exercised by every run of C04 and C07, not only when a random composition happens to hit it.
+//
+//go:embed witness_d20.json
+var witnessD20 []byte
+
+const witnesses = 1
+
 func (flattenEngine) counts(prop, tier string) (sys, rnd int) {
-	sys = gen.SysBundleCount()
+	sys = gen.SysBundleCount() + witnesses
 	rnd = 400
 	if tier == "thorough" {
 		rnd = 12000
@@ -391,6 +400,19 @@ func (e flattenEngine) Gen(prop, tier string, seed uint64, idx int) *runner.Case
 	sys, _ := e.counts(prop, tier)
 	var b *gen.Bundle
 	var name string
+	if idx == sys-1 {
+		var w struct {
+			Name  string            `json:"name"`
+			Files map[string]string `json:"files"`
+			Root  string            `json:"root"`
+			Opts  []string          `json:"opts"`
+			Tags  []string          `json:"tags"`
+		}
+		if err := json.Unmarshal(witnessD20, &w); err != nil {
+			panic(err)
+		}
+		return &runner.Case{Engine: "flatten", Name: w.Name, Files: w.Files, Root: w.Root, Opts: w.Opts, Tags: w.Tags}
+	}
 	if idx < sys {
 		b, name = gen.SysBundle(idx)
 		name = "sys/" + name
